@@ -1470,7 +1470,9 @@ class VM:
             if start < 0:
                 start = max(0, len(arr._elements) + start)
             for i in range(start, len(arr._elements)):
-                if vm._strict_equals(arr._elements[i], search):
+                elem = arr._elements[i]
+                # SameValueZero: like ===, except that NaN is found
+                if vm._strict_equals(elem, search) or (is_nan(elem) and is_nan(search)):
                     return True
             return False
 
